@@ -34,7 +34,54 @@ def floors(tier):
             "groups_feeding_several_consumers": 10}
 
 
+def _tg_base(n=40, k=4):
+    import dask_expr as dx
+    import numpy as np
+
+    pdf = pd.DataFrame({"a": np.arange(n) % 7, "b": np.arange(n) * 1.5, "c": np.arange(n)[::-1] + 0.0, "rid": np.arange(n)})
+    return pdf, dx.from_pandas(pdf, npartitions=k)
+
+
+def _tg_nested_diff_positions():
+    pdf, d = _tg_base()
+    inner = ((d.b + 1) * 2).optimize()
+    return (d.c - inner + 5).to_frame("v")
+
+
+def _tg_nested_two_inner():
+    pdf, d = _tg_base()
+    i1 = (d.b * 2 + d.a).optimize()
+    i2 = (d.c - 1).optimize()
+    return (d.rid + i2 - i1).to_frame("v")
+
+
+def _tg_nested_frame():
+    pdf, d = _tg_base()
+    inner = d.assign(z=d.b + d.c).optimize()
+    other = d[["a"]].rename(columns={"a": "aa"})
+    return inner.assign(w=other.aa * 2)[["z", "w", "rid"]]
+
+
+def _tg_nested_bcast():
+    pdf, d = _tg_base()
+    inner = (d.b - d.b.mean()).optimize()
+    return (d.c * 0 + inner + d.a.max()).to_frame("v")
+
+
+def _tg_double_optimize():
+    pdf, d = _tg_base()
+    x = (d[["a", "b"]] + 1).optimize()
+    y = (x * 2).optimize()
+    return (y - d[["a", "b"]]).assign(k=d.c)
+
+
+TARGETED = [_tg_nested_diff_positions, _tg_nested_two_inner, _tg_nested_frame, _tg_nested_bcast, _tg_double_optimize]
+
+
 def cases(tier, seed):
+    for i in range(len(TARGETED)):
+        for method in ("tasks", "disk"):
+            yield {"targeted": i, "shuffle": method}
     profiles = ["blockwise", "blockwise", "default", "structure", "blockwise", "projection"]
     for i in range(CONFIG[tier]["programs"]):
         yield {"gen": [seed, i], "profile": profiles[i % len(profiles)]}
@@ -47,22 +94,34 @@ def setup_worker(tier, seed):
 def run_case(case):
     from dask_expr._expr import Fused
 
-    prog = case["prog"] if "prog" in case else progcase.gen_prog(("C14",) + tuple(case["gen"]), profile=case.get("profile", "blockwise"))
     counters = {}
     rec = {"status": "ok", "counters": counters, "nt": [], "sets": {}}
 
     def bump(k, v=1):
         counters[k] = counters.get(k, 0) + v
 
-    b = progcase.Built(prog).build_sources()
-    rng = derive_rng("C14", shash(prog))
-    method = case.get("shuffle") or rng.choice(["tasks", "tasks", "disk"])
-    try:
-        b.eval_pd()
-        b.eval_dx(method)
-    except Exception:
-        return {"status": "refused", "counters": {"build_refused": 1}}
-    q = b.out_dx
+    if "targeted" in case:
+        prog = {"targeted": TARGETED[case["targeted"]].__name__}
+        rng = derive_rng("C14", prog["targeted"])
+        method = case.get("shuffle") or "tasks"
+        q = TARGETED[case["targeted"]]()
+
+        class _B:  # flags of the targeted shapes: ordered, labelled
+            class out_pd:
+                index = True
+            pd_vals = []
+        b = _B()
+    else:
+        prog = case["prog"] if "prog" in case else progcase.gen_prog(("C14",) + tuple(case["gen"]), profile=case.get("profile", "blockwise"))
+        b = progcase.Built(prog).build_sources()
+        rng = derive_rng("C14", shash(prog))
+        method = case.get("shuffle") or rng.choice(["tasks", "tasks", "disk"])
+        try:
+            b.eval_pd()
+            b.eval_dx(method)
+        except Exception:
+            return {"status": "refused", "counters": {"build_refused": 1}}
+        q = b.out_dx
     viol = None
     with dask.config.set({"dataframe.shuffle.method": method}):
         try:
@@ -145,13 +204,14 @@ def run_case(case):
                 except Exception as ex:
                     viol = dict(progcase.exc_info(ex), oracle="fused_runs_lifo")
     if viol:
-        viol["ops"] = programs.program_ops(prog)
+        targeted = "targeted" in case
+        viol["ops"] = [prog["targeted"]] if targeted else programs.program_ops(prog)
         viol["shuffle"] = method
-        viol["src"] = programs.program_source(prog)
+        viol["src"] = [prog["targeted"]] if targeted else programs.program_source(prog)
         viol.setdefault("classes", progcase.plan_classes(q.expr))
         rec["status"] = "violation"
         rec["viol"] = viol
-        rec["case"] = {"prog": prog, "shuffle": method}
+        rec["case"] = dict(case) if targeted else {"prog": prog, "shuffle": method}
     if case.get("gen") and case["gen"][1] in (1, 8):
         rec["sample"] = {"program": programs.program_source(prog), "shuffle": method, "fused_group_sizes": rec["sets"].get("group_sizes", [])}
     return rec
